@@ -421,7 +421,85 @@ def preempt_run(op, point):
         h.close()
 
 
+class HoldInNotify:
+    """trace factory: numbers the line events the (controlled) receive thread executes in electronic_control_unit.py; at the
+    chosen one the thread is held for 1 ms and, 0.3 ms into the hold, another thread calls fn (an unsubscribe)"""
+
+    def __init__(self, point):
+        self.point = point
+        self.count = 0
+        self.where = None
+        self.fn = None
+
+    def __call__(self, lt, idx):
+        if lt.kind != 'R':
+            return None
+        me = self
+
+        def tracer(frame, event, arg):
+            if not frame.f_code.co_filename.endswith('electronic_control_unit.py'):
+                return tracer if event == 'call' else None
+            if event == 'line':
+                me.count += 1
+                if me.count == me.point:
+                    me.where = "%s:%d" % (frame.f_code.co_name, frame.f_lineno)
+                    w = rt.CUR
+                    w.at(w.now + 0.0003, me.fn)
+                    w.hold(0.001)
+            return tracer
+        return tracer
+
+
+def preempt_unsub_run(k, point):
+    """three message callbacks; while a broadcast frame is being delivered the receive thread is suspended at one source line
+    and another thread unsubscribes callback k: it is not called after that unsubscribe has returned, the others get the frame"""
+    hd = HoldInNotify(point)
+    w = rt.World(trace_factory=hd)
+    rt.activate(w)
+    try:
+        bus = Bus(w, base_lat=1e-4)
+        st = Stack(bus, 'X')
+        st.start_rx_thread()
+        calls = []
+        t_un = [None]
+        cbs = [(lambda j: (lambda p, pgn, sa, ts, d: calls.append((w.now, j))))(j) for j in range(3)]
+        for cb in cbs:
+            st.ecu.subscribe(cb)
+
+        def un():
+            st.ecu.unsubscribe(cbs[k])
+            t_un[0] = w.now
+        hd.fn = un
+        w.run_for(0.005)
+        bus.ghost_node().send((6 << 26) | (0xFE << 16) | (0x42 << 8) | 0x99, bytes([1, 2, 3]))
+        w.run_for(0.01)
+        probs = []
+        if any(j == k and t_un[0] is not None and t > t_un[0] + 1e-9 for (t, j) in calls):
+            probs.append("message callback %d was called after unsubscribe() had returned (called from another thread while the frame was being delivered)" % k)
+        if sum(1 for (_t, j) in calls if j == k) > 1:
+            probs.append("message callback %d was called more often than it is registered" % k)
+        if st.rx_raised:
+            probs.append("receive thread: handler raised %s" % st.rx_raised[0])
+        return hd.count, probs, hd.where
+    finally:
+        w.shutdown()
+
+
 def preempt_chunk(item):
+    if item[0] == 'unsub':
+        acc = Acc()
+        _k, k, lo, hi = item
+        for pt in range(lo, hi):
+            _n, probs, where = preempt_unsub_run(k, pt)
+            acc.transitions += 1
+            if probs:
+                acc.violation(csig(probs), {'preempt': {'unsub': k, 'point': pt}, 'history': [], 'cfg': ['cfg', 50e-6]}, None,
+                              probs[:3] + ["receive thread held at %s" % where])
+        return acc
+    return preempt_timer_chunk(item)
+
+
+def preempt_timer_chunk(item):
     """C12 under pre-emption: the job thread is suspended at every source line of its pass while another thread removes
     or adds a timer; after remove_timer has returned the callback is not called any more"""
     op, lo, hi = item
@@ -503,6 +581,12 @@ def run(tier, seed):
                 raise RuntimeError("line-event numbering of the job thread's pass not reproducible (%d vs %d)" % (n1, n2))
             items += [(op, lo, min(lo + 20, n1 + 1)) for lo in range(1, n1 + 1, 20)]
             info.setdefault('pre-emption', {})[repr(op)] = {'line_events': n1}
+        nu = preempt_unsub_run(1, 0)[0]
+        if nu != preempt_unsub_run(1, 0)[0] or not nu:
+            raise RuntimeError("line-event numbering of the receive thread not reproducible")
+        for k in range(3):
+            items += [('unsub', k, lo, min(lo + 20, nu + 1)) for lo in range(1, nu + 1, 20)]
+        info.setdefault('pre-emption', {})['unsubscribe'] = {'line_events': nu}
         pool = make_pool(16)
         try:
             for a in pmap(pool, preempt_chunk, items):
@@ -524,8 +608,12 @@ def run(tier, seed):
 def replay(rec):
     if rec['scenario'].get('preempt'):
         pr = rec['scenario']['preempt']
-        n, probs, where = preempt_run(_tup(pr['op']), pr['point'])
-        print("job thread held at %s while another thread performs %r" % (where, pr['op']))
+        if 'unsub' in pr:
+            n, probs, where = preempt_unsub_run(pr['unsub'], pr['point'])
+            print("receive thread held at %s while another thread unsubscribes callback %d" % (where, pr['unsub']))
+        else:
+            n, probs, where = preempt_run(_tup(pr['op']), pr['point'])
+            print("job thread held at %s while another thread performs %r" % (where, pr['op']))
         if probs:
             print("REPRODUCED: " + "; ".join(probs[:4]))
             print("VIOLATION property=%s replay=(this file)" % PROP)
